@@ -13,7 +13,6 @@ use crate::util::*;
 use anoncreds_clsignatures::bn::BigNumber;
 use anoncreds_clsignatures::verif as vf;
 use serde_json::{json, Value};
-use std::sync::atomic::{AtomicBool, Ordering};
 use std::sync::mpsc;
 use std::time::Duration;
 
@@ -53,8 +52,9 @@ fn run(thorough: bool, rng: &mut Rng) -> Result<(), String> {
 
 // ------------------------------------------------------------------ watchdog
 
-/// run `f` on its own thread; `None` if it has not returned after `ms` (the thread is abandoned:
-/// it keeps spinning until the process exits, so this is used for a handful of calls only)
+/// safety net: run `f` on its own thread; `None` if it has not returned after `ms` (the thread is
+/// then abandoned). `inverse(0)` and `from_string` on 72-digit strings used not to terminate on the
+/// pinned tree; a regression must show up as a failed oracle, not as a stuck harness.
 fn with_timeout<T: Send + 'static>(ms: u64, f: impl FnOnce() -> T + Send + 'static) -> Option<T> {
     let (tx, rx) = mpsc::channel();
     std::thread::spawn(move || {
@@ -114,7 +114,7 @@ fn edge_scalars(rng: &mut Rng) -> Result<Vec<(String, Sc)>, String> {
     v.push(("(r+1)/2".into(), half));
     v.push(("(r-1)/2".into(), half.sub_mod(&Sc::new_u32(1).map_err(|e| e.to_string())?).map_err(|e| e.to_string())?));
     v.push(("2^253".into(), sc_from_hex(&format!("20{}", "00".repeat(31)))?));
-    // the one unreduced value the wrappers can produce
+    // mod_neg(0): returned the unreduced r before the fix in /repo; now plain zero
     let zero = Sc::from_bytes(&[]).map_err(|e| e.to_string())?;
     v.push(("neg(0)".into(), zero.mod_neg().map_err(|e| e.to_string())?));
     for i in 0..3 {
@@ -140,10 +140,10 @@ fn binop(name: &str, a: &Sc, b: &Sc) -> Out<Sc> {
     }
 }
 
-/// inverse under the watchdog: `None` = did not return within 1.5 s
+/// inverse under the safety net: `None` = did not return within 10 s
 fn inverse_wd(a: &Sc) -> Option<Out<Sc>> {
     let a = *a;
-    with_timeout(1500, move || guard(|| a.inverse()))
+    with_timeout(10_000, move || guard(|| a.inverse()))
 }
 
 fn scalars(em: &mut Em, thorough: bool, rng: &mut Rng) -> Result<(), String> {
@@ -198,10 +198,9 @@ fn scalars(em: &mut Em, thorough: bool, rng: &mut Rng) -> Result<(), String> {
     for _ in 0..(if thorough { 2000 } else { 200 }) {
         unary_inputs.push(("rand".into(), rand_scalar(rng)));
     }
-    // an inverse that hangs leaves a spinning thread behind: probe the zero class only a few times
-    let mut zero_class_inverse_probes = 0;
     for (la, a) in &unary_inputs {
         let a = *a;
+        let zero_class = a.is_zero() || sc_hex(&a) == R_HEX;
         let o = guard(|| a.mod_neg());
         let mut oracles = vec![];
         if let Out::Ok(v) = &o {
@@ -211,38 +210,51 @@ fn scalars(em: &mut Em, thorough: bool, rng: &mut Rng) -> Result<(), String> {
             }
             let red = Sc::from_bytes(&v.to_bytes().unwrap_or_default()).map(|s| sc_hex(&s)).unwrap_or_default();
             if red != sc_hex(v) {
-                oracles.push(json!({"name": "scalar_result_reduced", "detail": format!("mod_neg({}) returns the unreduced value {} (operand class {})", sc_hex(&a), sc_hex(v), if a.is_zero() || sc_hex(&a) == R_HEX { "zero" } else { "nonzero" })}));
+                oracles.push(json!({"name": "scalar_result_reduced", "detail": format!("mod_neg({}) returns the unreduced value {} (operand class {})", sc_hex(&a), sc_hex(v), if zero_class { "zero" } else { "nonzero" })}));
             }
+            // regression (fixed: mod_neg(0) returned r): the negation of zero is zero
+            if zero_class && !(v.is_zero() && *v == Sc::from_bytes(&[]).unwrap()) {
+                oracles.push(json!({"name": "neg_zero_is_zero", "detail": format!("mod_neg({}) = {} (is_zero() = {}), expected 0", sc_hex(&a), sc_hex(v), v.is_zero())}));
+            }
+        } else if zero_class {
+            oracles.push(json!({"name": "neg_zero_is_zero", "detail": format!("mod_neg({}) {} instead of 0", sc_hex(&a), o.tag())}));
         }
         let mut imp = sc_result(&o);
         imp["oracles"] = json!(oracles);
         em.case("sc_op", json!({"op": "neg", "args": [sc_hex(&a)]}), imp, json!({"part": "scalar", "sop": "neg", "operands": la}));
 
-        // inverse (watchdog)
-        let zero_class = a.is_zero() || sc_hex(&a) == R_HEX;
-        if zero_class {
-            zero_class_inverse_probes += 1;
-        }
-        if !(zero_class && zero_class_inverse_probes > 3) {
-            let mut oracles = vec![];
-            let imp = match inverse_wd(&a) {
-                None => {
-                    oracles.push(json!({"name": "scalar_inverse_terminates", "detail": format!("inverse({}) did not return within 1.5 s (operand class {})", sc_hex(&a), if zero_class { "zero" } else { "nonzero" })}));
-                    json!({"status": "hang"})
-                }
-                Some(o) => {
-                    if let Out::Ok(v) = &o {
-                        if v.mul_mod(&a).map(|p| sc_hex(&p) != sc_hex(&one)).unwrap_or(true) {
+        // inverse (safety net only)
+        let mut oracles = vec![];
+        let imp = match inverse_wd(&a) {
+            None => {
+                oracles.push(json!({"name": if zero_class { "inverse_zero_is_err" } else { "scalar_inverse_terminates" }, "detail": format!("inverse({}) did not return within 10 s (operand class {})", sc_hex(&a), if zero_class { "zero" } else { "nonzero" })}));
+                json!({"status": "hang"})
+            }
+            Some(o) => {
+                match &o {
+                    Out::Ok(v) => {
+                        if zero_class {
+                            // regression (fixed: inverse(0) did not terminate): zero has no inverse
+                            oracles.push(json!({"name": "inverse_zero_is_err", "detail": format!("inverse({}) returned Ok({}) for the zero class", sc_hex(&a), sc_hex(v))}));
+                        } else if v.mul_mod(&a).map(|p| sc_hex(&p) != sc_hex(&one)).unwrap_or(true) {
                             oracles.push(json!({"name": "scalar_inverse_is_inverse", "detail": format!("a * inverse(a) != 1 for a={}", sc_hex(&a))}));
                         }
                     }
-                    sc_result(&o)
+                    Out::Err(_) => {
+                        if !zero_class {
+                            oracles.push(json!({"name": "scalar_inverse_total", "detail": format!("inverse({}) returned Err for a non-zero scalar", sc_hex(&a))}));
+                        }
+                    }
+                    Out::Panic(_) => {
+                        oracles.push(json!({"name": if zero_class { "inverse_zero_is_err" } else { "scalar_inverse_total" }, "detail": format!("inverse({}) panics (operand class {})", sc_hex(&a), if zero_class { "zero" } else { "nonzero" })}));
+                    }
                 }
-            };
-            let mut imp = imp;
-            imp["oracles"] = json!(oracles);
-            em.case("sc_op", json!({"op": "inv", "args": [sc_hex(&a)]}), imp, json!({"part": "scalar", "sop": "inv", "operands": la}));
-        }
+                sc_result(&o)
+            }
+        };
+        let mut imp = imp;
+        imp["oracles"] = json!(oracles);
+        em.case("sc_op", json!({"op": "inv", "args": [sc_hex(&a)]}), imp, json!({"part": "scalar", "sop": "inv", "operands": la}));
 
         // to_string / to_bytes and back
         let s = guard(|| a.to_string());
@@ -300,37 +312,58 @@ fn scalars(em: &mut Em, thorough: bool, rng: &mut Rng) -> Result<(), String> {
         em.case("sc_op", json!({"op": "from_bytes", "args": [hex(b)]}), sc_result(&o), json!({"part": "scalar", "sop": "from_bytes", "operands": label}));
     }
 
-    // from_string (watchdog: 72+ digit strings can make amcl's rmod spin)
-    let mut str_inputs: Vec<(String, String)> = vec![];
-    for s in ["", "g", "0x10", " 1", "1 ", "+5", "-5", "\u{e9}", "1\u{e9}", "12_3", "1g", "\u{ff11}"] {
-        str_inputs.push(("malformed".into(), s.to_string()));
+    // from_string: 1..=71 hex digits are read and reduced, everything else must be refused with Err
+    // (fixed: empty / non-hex input panicked, 72+ digits gave wrong or unreduced values or did not
+    // terminate); safety net only
+    let mut str_inputs: Vec<(String, String, bool)> = vec![]; // (class, input, must be accepted)
+    for s in ["", "g", "0x10", " 1", "1 ", "+5", "-5", "\u{e9}", "1\u{e9}", "12_3", "1g", "\u{ff11}", "1\n", "0X1", "\u{0}"] {
+        str_inputs.push(("malformed".into(), s.to_string(), false));
     }
     for s in ["0", "1", "f", "F", "aB", "00", "0000000001"] {
-        str_inputs.push(("short".into(), s.to_string()));
+        str_inputs.push(("short".into(), s.to_string(), true));
     }
-    str_inputs.push(("r".into(), R_HEX.to_uppercase()));
-    str_inputs.push(("r-1".into(), r_plus(-1)));
-    str_inputs.push(("r+1".into(), r_plus(1)));
-    str_inputs.push(("64f".into(), "f".repeat(64)));
+    str_inputs.push(("r".into(), R_HEX.to_uppercase(), true));
+    str_inputs.push(("r-1".into(), r_plus(-1), true));
+    str_inputs.push(("r+1".into(), r_plus(1), true));
+    str_inputs.push(("64f".into(), "f".repeat(64), true));
     for len in 1..=71usize {
-        str_inputs.push((format!("hex{}", if len <= 64 { "<=64" } else { "65..71" }), rand_hex(rng, len)));
+        str_inputs.push((format!("hex{}", if len <= 64 { "<=64" } else { "65..71" }), rand_hex(rng, len), true));
     }
-    str_inputs.push(("71F".into(), "F".repeat(71)));
-    // 72 digits below r*2^33 (still exact) and the leading-digits-dropped class (> 72 digits)
-    str_inputs.push(("72_clean".into(), format!("{:08x}{}", 0x1000_0000u32, rand_hex(rng, 64))));
-    str_inputs.push(("72_clean".into(), format!("4a46c903{}", "f".repeat(64))));
-    str_inputs.push(("truncated".into(), format!("1{}", "0".repeat(72))));
-    str_inputs.push(("truncated".into(), format!("abcdef{}{}", "0".repeat(8), rand_hex(rng, 64))));
-    // outside the modelled domain (the model answers dep_defined, nothing is compared)
-    str_inputs.push(("72_unmodelled".into(), "F".repeat(72)));
-    str_inputs.push(("72_unmodelled".into(), format!("7{}", "F".repeat(71))));
-    str_inputs.push(("72_unmodelled".into(), format!("4a46c905{}", "0".repeat(64))));
-    for (label, s) in &str_inputs {
+    str_inputs.push(("71F".into(), "F".repeat(71), true));
+    str_inputs.push(("71_zeros_1".into(), format!("{}1", "0".repeat(70)), true));
+    // more than 71 digits (the classes that were exact / truncated / unreduced / non-terminating)
+    str_inputs.push(("72+digits".into(), format!("{:08x}{}", 0x1000_0000u32, rand_hex(rng, 64)), false));
+    str_inputs.push(("72+digits".into(), format!("4a46c903{}", "f".repeat(64)), false));
+    str_inputs.push(("72+digits".into(), format!("1{}", "0".repeat(72)), false));
+    str_inputs.push(("72+digits".into(), format!("abcdef{}{}", "0".repeat(8), rand_hex(rng, 64)), false));
+    str_inputs.push(("72+digits".into(), "F".repeat(72), false));
+    str_inputs.push(("72+digits".into(), format!("7{}", "F".repeat(71)), false));
+    str_inputs.push(("72+digits".into(), format!("4a46c905{}", "0".repeat(64)), false));
+    str_inputs.push(("72+digits".into(), "0".repeat(72), false));
+    str_inputs.push(("72+digits".into(), rand_hex(rng, 200), false));
+    // a malformed character behind / in front of many valid digits
+    str_inputs.push(("malformed".into(), format!("{}g", rand_hex(rng, 63)), false));
+    str_inputs.push(("malformed".into(), format!("g{}", rand_hex(rng, 63)), false));
+    for (label, s, accept) in &str_inputs {
         let s2 = s.clone();
-        let imp = match with_timeout(2000, move || guard(|| Sc::from_string(&s2))) {
-            None => json!({"status": "hang"}),
-            Some(o) => sc_result(&o),
+        let mut oracles = vec![];
+        let imp = match with_timeout(10_000, move || guard(|| Sc::from_string(&s2))) {
+            None => {
+                oracles.push(json!({"name": "from_string_rejects_malformed", "detail": format!("from_string({:?}) did not return within 10 s (class {})", s, label)}));
+                json!({"status": "hang"})
+            }
+            Some(o) => {
+                if !*accept && !matches!(o, Out::Err(_)) {
+                    oracles.push(json!({"name": "from_string_rejects_malformed", "detail": format!("from_string({:?}) {} instead of Err (class {})", s, o.tag(), label)}));
+                }
+                if *accept && !o.is_ok() {
+                    oracles.push(json!({"name": "from_string_accepts_hex", "detail": format!("from_string({:?}) {} for 1..=71 hex digits (class {})", s, o.tag(), label)}));
+                }
+                sc_result(&o)
+            }
         };
+        let mut imp = imp;
+        imp["oracles"] = json!(oracles);
         em.case("sc_op", json!({"op": "from_string", "args": [s]}), imp, json!({"part": "scalar", "sop": "from_string", "operands": label}));
     }
 
@@ -416,21 +449,11 @@ fn gt_canon(p: &vf::Pair) -> String {
     hex(&p.to_bytes().unwrap_or_default())
 }
 
-/// set when a pairing is evaluated with BOTH arguments the identity (the wrappers then return the
-/// zero element of FP12); a law that fails after that is reported under one specific oracle name
-static BOTH_IDENTITY: AtomicBool = AtomicBool::new(false);
-
 fn pr(p: &vf::PointG1, q: &vf::PointG2) -> Result<vf::Pair, ClE> {
-    if p.is_inf()? && q.is_inf()? {
-        BOTH_IDENTITY.store(true, Ordering::SeqCst);
-    }
     vf::Pair::pair(p, q)
 }
 
 fn pr2(p: &vf::PointG1, q: &vf::PointG2, r: &vf::PointG1, s: &vf::PointG2) -> Result<vf::Pair, ClE> {
-    if (p.is_inf()? && q.is_inf()?) || (r.is_inf()? && s.is_inf()?) {
-        BOTH_IDENTITY.store(true, Ordering::SeqCst);
-    }
     vf::Pair::pair2(p, q, r, s)
 }
 
@@ -443,13 +466,8 @@ struct Laws {
 impl Laws {
     fn check(&mut self, name: &str, ok: bool, what: &str) {
         self.checked += 1;
-        let tainted = BOTH_IDENTITY.swap(false, Ordering::SeqCst);
         if !ok {
-            if tainted {
-                self.failed.push(json!({"name": "pair_both_identity", "detail": format!("Pair::pair/pair2 with both arguments of a pair the identity does not give unity (the zero element of FP12 comes back); law {} fails: {} [{}]", name, what, self.ctx)}));
-            } else {
-                self.failed.push(json!({"name": name, "detail": format!("{}: {} [{}]", name, what, self.ctx)}));
-            }
+            self.failed.push(json!({"name": name, "detail": format!("{}: {} [{}]", name, what, self.ctx)}));
         }
     }
     /// equality both through the derived `==` (amcl `equals`) and through the byte encoding
@@ -477,8 +495,7 @@ impl Laws {
 
 type ClE = anoncreds_clsignatures::Error;
 
-fn pair_case(a: &Sc, b: &Sc, x: &Sc, y: &Sc, inf_variant: u8, both_identity_probe: bool, laws: &mut Laws) -> Result<Value, ClE> {
-    BOTH_IDENTITY.store(false, Ordering::SeqCst);
+fn pair_case(a: &Sc, b: &Sc, x: &Sc, y: &Sc, inf_variant: u8, laws: &mut Laws) -> Result<Value, ClE> {
     let zero = Sc::from_bytes(&[])?;
     let one = Sc::new_u32(1)?;
     let rm1 = zero.sub_mod(&one)?;
@@ -576,14 +593,22 @@ fn pair_case(a: &Sc, b: &Sc, x: &Sc, y: &Sc, inf_variant: u8, both_identity_prob
     laws.eq_gt("pair_mul_comm", &e.pow(a)?.mul(&e.pow(b)?)?, &e.pow(b)?.mul(&e.pow(a)?)?, "x.mul(y) vs y.mul(x)");
     laws.eq_gt("pair_bytes_roundtrip", &vf::Pair::from_bytes(&e.to_bytes()?)?, &e, "from_bytes(to_bytes(e)) vs e");
     // identity and non-degeneracy
-    laws.check("pair_inf_left_unity", pr(&inf1, &q)?.is_unity()?, "pair(inf,Q) is not unity");
-    laws.check("pair_inf_right_unity", pr(&p, &inf2)?.is_unity()?, "pair(P,inf) is not unity");
-    laws.eq_gt("pair2_identity_slot_g1", &pr2(&p, &q, &inf1, &s_pt)?, &e, "pair2(P,Q,inf,S) vs pair(P,Q)");
-    laws.eq_gt("pair2_identity_slot_g2", &pr2(&p, &q, &r_pt, &inf2)?, &e, "pair2(P,Q,R,inf) vs pair(P,Q)");
-    if both_identity_probe {
-        laws.check("pair_identity_identity", pr(&inf1, &inf2)?.is_unity()?, "pair(inf,inf) is not unity");
-        laws.eq_gt("pair2_identity_identity", &pr2(&p, &q, &inf1, &inf2)?, &e, "pair2(P,Q,inf,inf) vs pair(P,Q)");
-    }
+    // regression (fixed: pair(inf,inf) and pair2 with an (inf,inf) pair returned the zero element
+    // of FP12): a pairing with the identity on either side, or on both, is unity
+    laws.check("pair_identity_is_unity", pr(&inf1, &q)?.is_unity()?, "pair(inf,Q) is not unity");
+    laws.check("pair_identity_is_unity", pr(&p, &inf2)?.is_unity()?, "pair(P,inf) is not unity");
+    laws.check("pair_identity_is_unity", pr(&inf1, &inf2)?.is_unity()?, "pair(inf,inf) is not unity");
+    laws.eq_gt("pair_identity_is_unity", &pr(&inf1, &inf2)?, &unity, "pair(inf,inf) vs new_unity()");
+    laws.eq_gt("pair_identity_is_unity", &pr(&inf1, &inf2)?, &e.pow(&zero)?, "pair(0*P,0*Q) vs pair(P,Q).pow(0)");
+    laws.eq_gt("pair2_identity_slot", &pr2(&p, &q, &inf1, &s_pt)?, &e, "pair2(P,Q,inf,S) vs pair(P,Q)");
+    laws.eq_gt("pair2_identity_slot", &pr2(&p, &q, &r_pt, &inf2)?, &e, "pair2(P,Q,R,inf) vs pair(P,Q)");
+    laws.eq_gt("pair2_identity_slot", &pr2(&p, &q, &inf1, &inf2)?, &e, "pair2(P,Q,inf,inf) vs pair(P,Q)");
+    laws.eq_gt("pair2_identity_slot", &pr2(&inf1, &inf2, &p, &q)?, &e, "pair2(inf,inf,P,Q) vs pair(P,Q)");
+    laws.check("pair2_identity_slot", pr2(&inf1, &inf2, &inf1, &inf2)?.is_unity()?, "pair2(inf,inf,inf,inf) is not unity");
+    // regression (fixed: Pair::inverse did not reduce): the inverse of unity has the encoding of unity
+    laws.check("pair_inverse_canonical", gt_canon(&unity.inverse()?) == gt_canon(&unity), "new_unity().inverse().to_bytes() differs from new_unity().to_bytes()");
+    laws.check("pair_inverse_canonical", gt_canon(&e.pow(&zero)?.inverse()?) == gt_canon(&e.pow(&zero)?), "e.pow(0).inverse().to_bytes() differs from e.pow(0).to_bytes()");
+    laws.check("pair_inverse_canonical", gt_canon(&einv.inverse()?) == gt_canon(&e), "e.inverse().inverse().to_bytes() differs from e.to_bytes()");
     let degenerate = p.is_inf()? || q.is_inf()?;
     laws.check("pair_nondegenerate", e.is_unity()? == degenerate, &format!("pair(P,Q).is_unity() is {} for P,Q {}", e.is_unity()?, if degenerate { "with an identity" } else { "both non-identity" }));
 
@@ -617,8 +642,7 @@ fn pairings(em: &mut Em, thorough: bool, rng: &mut Rng) -> Result<(), String> {
     for (la, a, lb, b, inf_variant) in plan {
         let (x, y) = (rand_scalar(rng), rand_scalar(rng));
         let mut laws = Laws { failed: vec![], checked: 0, ctx: format!("a={} b={} P=g1^{} Q=g2^{} identity_variant={}", sc_hex(&a), sc_hex(&b), sc_hex(&x), sc_hex(&y), inf_variant) };
-        let probe = la == "1" && lb == "1";
-        let o = guard(|| pair_case(&a, &b, &x, &y, inf_variant, probe, &mut laws));
+        let o = guard(|| pair_case(&a, &b, &x, &y, inf_variant, &mut laws));
         let mut imp = match &o {
             Out::Ok(v) => json!({"status": "ok", "scalars": v}),
             _ => json!({"status": o.tag(), "msg": o.msg().chars().take(120).collect::<String>()}),
